@@ -81,13 +81,23 @@ func (c *c16Case) commandCLI(line string) (cl string) {
 }
 
 // dbgTable: the @dbg table lists every command of DebugCommandsMap
-func (c *c16Case) dbgTable() bool {
+func (c *c16Case) dbgTable() (ok bool) {
+	defer func() {
+		if e := recover(); e != nil {
+			ok = false
+		}
+	}()
 	buf := &c16Buf{}
 	c.cliHandler().Handle(buf, "@dbg")
 	for name := range interpreter.DebugCommandsMap {
 		if !strings.Contains(buf.sb.String(), name) {
 			return false
 		}
+	}
+	// the argument of @dbg is a glob for a full text search: metacharacters and garbage must not panic
+	// (a panic propagates to the caller of dbgTable and becomes the class of the case)
+	for _, pat := range []string{"*", "?", "[", "]", "[a-", "{", "}", "\\", "lock*", "**", "*[", "(", "+", "^$", "\xff", "a b c", ""} {
+		c.cliHandler().Handle(&c16Buf{}, "@dbg "+pat)
 	}
 	one := &c16Buf{}
 	c.cliHandler().Handle(one, "@dbg lockstate")
